@@ -134,9 +134,167 @@ def enumerate_group(rx: str, group: str, limit=64):
     return lang(sub)
 
 
+def _helper_facts(chk, ctx) -> None:
+    """the small steps of the generic reconstruction, each as the shape it must have"""
+    prog = ctx.prog
+    m = ctx.m
+    base = prog.cls('REParser')
+
+    def facts(rule, construct, fi, table, detail):
+        missing = [k for k, v in table.items() if not v]
+        chk.ob(rule, construct, not missing, fi.loc if fi is not None else base.loc, detail, got=f'not found: {missing}' if missing else 'ok')
+    pa = base.methods.get('_parse_actions')
+    if pa is not None:
+        fp_ = [n for n in ast.walk(pa.node) if isinstance(n, ast.FunctionDef) and n.name == 'format_player']
+        loops = m.fors(pa.node, 's.splitlines()')
+        tbl = {
+            'a player is written p<position + 1>, position = index in the ordered player list': len(fp_) == 1
+            and bool(m.exprs(fp_[0], "players.index(m['player'])", nested=True))
+            and any(isinstance(x, ast.JoinedStr) and len(x.values) == 2 and isinstance(x.values[0], ast.Constant) and x.values[0].value == 'p'
+                    and isinstance(x.values[1], ast.FormattedValue) and T.norm(x.values[1].value)[0] == 'lin' and T.norm(x.values[1].value)[2] == 1
+                    for x in ast.walk(fp_[0])),
+            'one pass over the lines of the log': len(loops) == 1,
+        }
+        if len(loops) == 1:
+            lp = loops[0]
+            first, last = lp.body[0], lp.body[-1]
+            tbl['each line starts without an action'] = isinstance(first, ast.Assign) and isinstance(first.value, ast.Constant) and first.value.value is None
+            tbl['every action found is appended, none invented'] = isinstance(last, ast.If) and not last.orelse \
+                and m.eq(T.cond(last.test), 'action is not None', boolean=True, fn=pa.node) and bool(m.calls(last, 'actions.append(action)'))
+        tbl['the list of actions is returned'] = any(isinstance(n, ast.Return) and isinstance(n.value, ast.Name) for n in pa.node.body)
+        facts('C20.bookkeeping', 'REParser._parse_actions:flow', pa, tbl,
+              'the log is read line by line; each recognised event yields one action for the player at his position; every action is kept')
+    pp = base.methods.get('_parse_players')
+    if pp is not None:
+        facts('C20.driver', 'REParser._parse_players', pp, {
+            'every player named in an event line is collected': bool(m.calls(pp.node, "players.add(m['player'])")),
+            'over all lines': bool(m.fors(pp.node, 's.splitlines()')),
+        }, 'the players of a hand are everybody who posts, folds, calls, raises or shows')
+    pv, ppv = base.methods.get('_parse_variables'), base.methods.get('_parse_player_variables')
+    if pv is not None:
+        facts('C20.driver', 'REParser._parse_variables', pv, {
+            'the value parser defaults to parse_value': bool(m.ifs(pv.node, 'parse_pattern is None')) and bool(m.full_assigns(pv.node, 'parse_pattern', 'parse_value')),
+            'a variable is set from its named group when the pattern matches and has that group': bool(m.ifs(pv.node, '(m := search(pattern, s)) and key in m.groupdict()'))
+            and bool(m.full_assigns(pv.node, 'variables[key]', 'parse_pattern(m[key])')),
+        }, 'optional hand-level fields (venue, time, ...) are taken from their patterns, parsed by the pattern\'s parser or parse_value')
+    if ppv is not None:
+        facts('C20.driver', 'REParser._parse_player_variables', ppv, {
+            'the value parser defaults to parse_value': bool(m.ifs(ppv.node, 'parse_pattern is None')) and bool(m.full_assigns(ppv.node, 'parse_pattern', 'parse_value')),
+            'values are merged per player': bool(m.full_assigns(ppv.node, 'sub_player_variables[player]', 'merge(sub_player_variables[player], parse_pattern(m[key]))')),
+            'every per-player field is kept': bool(m.full_assigns(ppv.node, 'player_variables[key]', 'sub_player_variables')),
+        }, 'optional per-player fields (winnings, ...) are merged per player and all returned')
+    ft = prog.cls('FullTiltPokerParser').methods.get('_parse_starting_stacks')
+    if ft is not None:
+        facts('C20.conventions', 'FullTiltPokerParser._parse_starting_stacks', ft, {
+            'starts from the generic stacks': bool(m.assigns(ft.node, 'super()._parse_starting_stacks(s, parse_value)')),
+            'a cap applies only when the log states one': bool(m.ifs(ft.node, 'cap is not None')),
+            'stacks above the cap are cut to it (and only those)': bool(m.ifs(ft.node, 'value > cap')) and bool(m.full_assigns(ft.node, 'starting_stacks[key]', 'cap')),
+        }, 'Full Tilt cap games: a stack counts up to the cap')
+    ipk = prog.cls('IPokerNetworkParser')
+    ips = ipk.methods.get('_parse_starting_stacks')
+    if ips is not None:
+        facts('C20.conventions', 'IPokerNetworkParser._parse_starting_stacks', ips, {
+            'starts from the generic stacks': bool(m.assigns(ips.node, 'super()._parse_starting_stacks(s, parse_value)')),
+            'the placeholder stack means unknown (infinite)': bool(m.ifs(ips.node, 'value == self.PLACEHOLDER_STARTING_STACK'))
+            and bool(m.full_assigns(ips.node, 'starting_stacks[key]', "parse_value('inf')")),
+        }, 'iPoker: a placeholder starting stack is read as unbounded')
+    # the per-line collectors: one entry per matching line, keyed by the player
+    for fname, spec_assign, what in (
+            ('_parse_seats', ("seats[m['player']]", "int(m['seat'])"), 'seat of every player'),
+            ('_parse_antes', ("antes[m['player']]", "parse_value(m['ante'])"), 'ante of every poster'),
+            ('_parse_blinds_or_straddles', ("blinds_or_straddles[m['player']]", "parse_value(m['blind_or_straddle'])"), 'blind / straddle of every poster'),
+            ('_parse_starting_stacks', ("starting_stacks[m['player']]", "parse_value(m['starting_stack'])"), 'starting stack of every player')):
+        fi = base.methods.get(fname)
+        if fi is None:
+            continue
+        facts('C20.driver', f'REParser.{fname}', fi, {
+            f'{what} is taken from its line': bool(m.full_assigns(fi.node, *spec_assign)),
+            'over all lines': bool(m.fors(fi.node, 's.splitlines()')),
+        }, f'the {what} is read from the lines that state it, parsed with the caller\'s value parser')
+    for fname, group, conv in (('_parse_final_seat', 'final_seat', "int(m['final_seat'])"), ('_parse_variant', 'variant', "self.VARIANTS[m['variant']]")):
+        fi = base.methods.get(fname)
+        if fi is None:
+            continue
+        refuse = any(any(isinstance(r, ast.Raise) for r in yes) for yes, no in m.when(fi.node, 'm is None'))
+        facts('C20.errors', f'REParser.{fname}', fi, {
+            'a log without it is refused (ValueError)': refuse,
+            'the value comes from the named group': bool(m.exprs(fi.node, conv)),
+        }, f'the {group} is read from its pattern; a log that does not state it cannot be interpreted')
+    cs = prog.cls('FullTiltPokerParser').methods.get('_cap_starting_stacks')
+    if cs is not None:
+        none_ret = any(any(isinstance(x, ast.Assign) and isinstance(x.value, ast.Constant) and x.value.value is None or
+                           isinstance(x, ast.Return) and (x.value is None or isinstance(x.value, ast.Constant) and x.value.value is None) for x in yes)
+                       for yes, no in m.when(cs.node, 'm is None'))
+        facts('C20.conventions', 'FullTiltPokerParser._cap_starting_stacks', cs, {
+            'no cap line means no cap': none_ret,
+            'the cap is parsed from its group': bool(m.exprs(cs.node, "parse_value(m['cap'])")),
+        }, 'Full Tilt: the cap is what the header states, and absent otherwise')
+    # every parser entry point hands out every history it managed to build
+    for ci in [base, prog.cls('ACPCProtocolParser')] + [c for c in prog.subclasses('REParser')]:
+        call = ci.methods.get('__call__')
+        if call is None:
+            continue
+        ys = [n for n in ast.walk(call.node) if isinstance(n, ast.Yield) and n.value is not None]
+        ok = bool(ys) and all(isinstance(y.value, ast.Name) for y in ys)
+        rets = [n for n in ast.walk(call.node) if isinstance(n, ast.Return) and n.value is not None]
+        chk.ob('C20.errors', f'{ci.name}.__call__:yields', ok and bool(rets), call.loc,
+               'the importer yields each reconstructed history and returns the number of hands it saw', got=f'{len(ys)} yield(s), {len(rets)} return(s)')
+    ipc = ipk.methods.get('__call__')
+    if ipc is not None:
+        facts('C20.driver', 'IPokerNetworkParser.__call__', ipc, {
+            'session-level fields are read once': bool(m.assigns(ipc.node, 'self._parse_variables(s, parse_value)')),
+            'and copied into every hand that does not state them itself': bool(m.ifs(ipc.node, 'getattr(hh, key, None) is None')) and bool(m.calls(ipc.node, 'setattr(hh, key, value)')),
+            'the generic importer does the rest (errors as asked)': bool(m.exprs(ipc.node, 'super().__call__(s, parse_value=parse_value, error_status=error_status)')),
+            'the count of the generic importer is returned': bool(m.full_assigns(ipc.node, 'return_value', 'e.value')) and bool(m.ifs(ipc.node, 'return_value is None')),
+        }, 'iPoker: session fields are filled into each hand; hands, errors and the count come from the generic importer')
+    # REParser._parse: order the players, then lay out seats, antes, blinds and stacks in that order
+    rp = base.methods.get('_parse')
+    if rp is not None:
+        def role(call_src):
+            """name of the local bound to the given parser call"""
+            hits = [n.targets[0].id for n in m.assigns(rp.node, call_src) if isinstance(n.targets[0], ast.Name)]
+            return hits[0] if len(hits) == 1 else None
+        r_seats, r_antes = role('self._parse_seats(s)'), role('self._parse_antes(s, parse_value)')
+        r_blinds, r_stacks = role('self._parse_blinds_or_straddles(s, parse_value)'), role('self._parse_starting_stacks(s, parse_value)')
+        ordered = [n for n in walk_no_nested(rp.node) if isinstance(n, ast.Assign) and isinstance(n.value, ast.Call)
+                   and ast.unparse(n.value.func) == 'self._get_ordered_players' and isinstance(n.targets[0], ast.Name)]
+        pl = ordered[0].targets[0].id if len(ordered) == 1 else None
+
+        def laid_out(src_role, after_ordering=True):
+            if src_role is None or pl is None:
+                return 0
+            want = T.spec(f'list(map({src_role}.__getitem__, {pl}))')
+            return sum(1 for n in walk_no_nested(rp.node) if isinstance(n, ast.Assign) and T.norm(n.value) == want
+                       and (not after_ordering or n.lineno > ordered[0].lineno))
+        facts('C20.order', 'REParser._parse:layout', rp, {
+            'players are ordered from the button': pl is not None and r_blinds is not None
+            and len(ordered[0].value.args) == 5 and [ast.unparse(a) for a in ordered[0].value.args[:3]] == ['s', role('self._parse_final_seat(s)') or '?', r_blinds],
+            'seats follow the player order': laid_out(r_seats) == 1,
+            'antes follow the player order': laid_out(r_antes) == 1,
+            'blinds follow the player order': laid_out(r_blinds) == 1,
+            'stacks follow the player order': laid_out(r_stacks) == 1,
+            'actions are parsed against the ordered players': bool(m.exprs(rp.node, 'self._parse_actions(s, parse_value, players)', nested=False)),
+            'what is returned is built from the replayed hand (with seats and names)': any(
+                isinstance(n, ast.Return) and n.value is not None and 'from_game_state' in ast.unparse(n.value) and 'seats=seats' in ast.unparse(n.value)
+                and 'players=players' in ast.unparse(n.value) for n in rp.node.body)
+            or (bool(m.assigns(rp.node, 'HandHistory.from_game_state(game, state, seats=seats, players=players, **self.CONSTANTS, **V, **W)'))),
+        }, 'the hand is laid out in position order (seats, antes, blinds, stacks alike) and the result is the replayed hand')
+    ipo = ipk.methods.get('_get_ordered_players')
+    if ipo is not None:
+        facts('C20.order', 'IPokerNetworkParser._get_ordered_players', ipo, {
+            'starts from the generic order': bool(m.assigns(ipo.node, 'super()._get_ordered_players(s, final_seat, parsed_blinds_or_straddles, players, seats)')),
+            'keeps the two blinds': bool(m.full_assigns(ipo.node, 'players', 'players[:2]')),
+            'then everybody in the order of his first action': bool(m.calls(ipo.node, 'players.append(player)')) and bool(m.full_assigns(ipo.node, 'player', "m['player']")),
+            'lines without a player are skipped, the scan stops at the first repeated player': bool(m.when(ipo.node, 'player is None')) and any(
+                any(isinstance(x, ast.Break) for x in yes) for yes, no in m.when(ipo.node, 'player in players')),
+            'per line the player starts unknown': bool(m.full_assigns(ipo.node, 'player', 'None')),
+        }, 'iPoker logs carry no seat order: after the blinds, players are ordered by their first action')
+
+
 def run(chk, ctx) -> None:
     from .helpers import rotated_helper
     rotated_helper(chk, ctx, 'C20.order')
+    _helper_facts(chk, ctx)
     prog = ctx.prog
     sev = SEval(prog)
     base = prog.cls('REParser')
